@@ -110,6 +110,9 @@ func Universe() []UVal {
 		specU(`"first"`, SStr("first")),
 		specU(`"a"`, SStr("a")),
 		specU(`"now or never"`, SStr("now or never")),
+		specU(`"20 nines"`, SStr("99999999999999999999")),
+		specU(`"1e999"`, SStr("1e999")),
+		specU(`"-1e400"`, SStr("-1e400")),
 		specU(`"a, b and c"`, SStr("a, b and c")),
 		specU("4KiB", SStr(long)),
 		specU(`"unicode-ws"`, SStr("one\u00a0two\fthree\vfour\u2003five\u3000six\u0085seven\u2028eight nine")),
